@@ -174,8 +174,8 @@ def r1(ctx):
     ctx.count("layout_cases", ncase)
 
 
-@rule("C02.R2", "buffer reads are bounded (no over-read) and a short buffer surfaces as InvalidTag from Tag.decode", floor=8, engines="E1 facts + E5")
-def r2(ctx):
+def pdudata_reads(ctx):
+    """the buffer every decoder reads from: bounded, consuming, big endian (registered as C02.R2, C08.R5, C09.R5)"""
     prog = ctx.prog
     pd = prog.cls("comm", "PDUData")
     m = pd.module
@@ -184,6 +184,11 @@ def r2(ctx):
     gd = pd.methods.get("get_data")
     if g is None or gd is None:
         raise AnchorMissing("PDUData.get/get_data")
+    # get() may be written on top of get_data(1): then get_data's checks are its checks
+    deleg = [r for r in walk_shallow(g) if isinstance(r, ast.Return) and r.value is not None and norm(r.value) == "self.get_data(1)[0]"]
+    g_delegates = len(deleg) == 1 and not [n for n in walk_shallow(g) if isinstance(n, ast.Attribute) and n.attr == "pduData"]
+    if g_delegates:
+        ctx.check("PDUData.get:via-get_data", not facts_at(deleg[0]), where(m, g), "get() returns the single octet get_data(1) yields")
     # get(): the read and the delete are reached only with at least one octet
     for n in walk_shallow(g):
         if isinstance(n, (ast.Subscript, ast.Delete)) and "self.pduData" in norm(n):
@@ -197,6 +202,8 @@ def r2(ctx):
             reach = sorted((k, want) for k in (0, 1, 4) for want in (0, 1, 4, 5) if ev.may_hold(fa, {"len(self.pduData)": k, n_arg: want}))
             ctx.check("PDUData.get_data:bounded[%s]" % type(n).__name__, reach == sorted((k, w) for k in (0, 1, 4) for w in (0, 1, 4, 5) if k >= w), where(m, n), "data is sliced with (available, wanted) in %r" % reach[:6])
     for f, nm in ((g, "get"), (gd, "get_data")):
+        if nm == "get" and g_delegates:
+            continue
         rs = [r for r in walk_shallow(f) if isinstance(r, ast.Raise)]
         ctx.check("PDUData.%s:raises-DecodingError" % nm, len(rs) == 1 and "DecodingError" in norm(rs[0]), where(m, f), "a short buffer must raise DecodingError")
         # consumed octets are removed (progress)
@@ -208,13 +215,42 @@ def r2(ctx):
         f = pd.methods.get(nm)
         if f is None:
             raise AnchorMissing("PDUData.%s" % nm)
-        cs = [x for x in calls_in(f) if norm(x.func) == "struct.unpack"]
-        ok = len(cs) == 1 and prog.try_const(m, cs[0].args[0]) in (fmt, "!" + fmt[1]) and norm(cs[0].args[1]) == "self.get_data(%d)" % w
+        # the octets come from get_data(w) - the one bounded, consuming read - and nothing touches the buffer directly;
+        # they are combined big endian (struct '>'/'!' or int.from_bytes(.., 'big'))
+        direct = [n for n in walk_shallow(f) if isinstance(n, ast.Attribute) and n.attr == "pduData"]
+        gets = [x for x in calls_in(f) if norm(x.func) == "self.get_data"]
+        ok = not direct and len(gets) == 1 and len(gets[0].args) == 1 and prog.try_const(m, gets[0].args[0]) == w
+        if ok:
+            cs = [x for x in calls_in(f) if norm(x.func) == "struct.unpack"]
+            ib = [x for x in calls_in(f) if norm(x.func) == "int.from_bytes"]
+            if len(cs) == 1:
+                ok = prog.try_const(m, cs[0].args[0]) in (fmt, "!" + fmt[1]) and norm(cs[0].args[1]) == norm(gets[0])
+            elif len(ib) == 1:
+                order = ib[0].args[1] if len(ib[0].args) > 1 else next((k.value for k in ib[0].keywords if k.arg == "byteorder"), None)
+                ok = norm(ib[0].args[0]) == norm(gets[0]) and order is not None and prog.try_const(m, order) == "big" \
+                    and not any(k.arg == "signed" and prog.try_const(m, k.value) for k in ib[0].keywords)
+            else:
+                ok = False
         ctx.check("PDUData.%s:via-get_data" % nm, ok, where(m, f), "%s must read %d octets through get_data (big endian)" % (nm, w))
     for nm, fmt in (("put_short", ">H"), ("put_long", ">L")):
         f = pd.methods.get(nm)
         cs = [x for x in calls_in(f) if norm(x.func) == "struct.pack"] if f else []
-        ctx.check("PDUData.%s:big-endian" % nm, len(cs) == 1 and prog.try_const(m, cs[0].args[0]) in (fmt, "!" + fmt[1]), where(m, f or pd.node), "%s must write big endian %s" % (nm, fmt))
+        tb = [x for x in calls_in(f) if isinstance(x.func, ast.Attribute) and x.func.attr == "to_bytes"] if f else []
+        ok = len(cs) == 1 and prog.try_const(m, cs[0].args[0]) in (fmt, "!" + fmt[1])
+        if not cs and len(tb) == 1:
+            a_ = list(tb[0].args)
+            if norm(tb[0].func.value) == "int":
+                a_ = a_[1:]
+            order = a_[1] if len(a_) > 1 else next((k.value for k in tb[0].keywords if k.arg == "byteorder"), None)
+            ok = bool(a_) and prog.try_const(m, a_[0]) == {">H": 2, ">L": 4}[fmt] and order is not None and prog.try_const(m, order) == "big" \
+                and not any(k.arg == "signed" and prog.try_const(m, k.value) for k in tb[0].keywords)
+        ctx.check("PDUData.%s:big-endian" % nm, ok, where(m, f or pd.node), "%s must write big endian %s" % (nm, fmt))
+
+
+@rule("C02.R2", "buffer reads are bounded (no over-read) and a short buffer surfaces as InvalidTag from Tag.decode", floor=8, engines="E1 facts + E5")
+def r2(ctx):
+    prog = ctx.prog
+    pdudata_reads(ctx)
     # Tag.decode: every buffer read inside the try that translates DecodingError -> InvalidTag
     t = prog.cls(PM, "Tag")
     d = t.methods["decode"]
@@ -362,7 +398,10 @@ def _scan_outcomes(prog, c, lp, ev, var="lvl"):
                                 env.pop(var, None)
                         calls += [norm(x.func) for x in calls_in(n)]
                 if ok:
-                    res.add((p.term, env.get(var), tuple(calls)))
+                    term = p.term
+                    if term in ("fall", "continue") and isinstance(lp, ast.While) and var in env and ev.eval3(lp.test, {var: env[var]}) is False:
+                        term = "break"          # the loop condition itself ends the scan with this level
+                    res.add((term, env.get(var), tuple(calls)))
             out[(cls, v0)] = res
     return out
 
